@@ -3,6 +3,8 @@
   polyphase biorthogonality conditions (N-independent, decidable for a given bank).
 -/
 import WaveletsVerif.Lemmas.Adjoint
+import Mathlib.Order.Interval.Finset.Defs
+import Mathlib.Data.Int.Interval
 namespace WV
 open Finset
 variable {R : Type} [CommRing R]
@@ -100,6 +102,70 @@ theorem kernel_reindex (h g : List R) (N K i : Nat) (t : Int) (hi : i < N) (hK :
     apply Finset.sum_eq_zero
     intro k _
     have : ¬ ((a:Int) = 2*(k:Int) + 1 - i) := by omega
+    rw [if_neg this]
+
+/-- `Σ_j h_j·e(c−j) = Σ_{u∈W} e(u)·h̃(c−u)` for any window `W` containing all the indices read -/
+theorem sum_taps_window (h : List R) (e : Int → R) (c : Int) (W : Finset Int)
+    (hW : ∀ j < h.length, c - (j:Int) ∈ W) :
+    ∑ j ∈ range h.length, getN h j * e (c - (j:Int)) = ∑ u ∈ W, e u * getZ h (c - u) := by
+  have h2 : ∀ u ∈ W, e u * getZ h (c - u) = ∑ j ∈ range h.length, if u = c - (j:Int) then getN h j * e u else 0 := by
+    intro u _
+    rw [getZ_eq_sum, Finset.mul_sum]
+    apply Finset.sum_congr rfl; intro j _
+    by_cases hc : (j:Int) = c - u
+    · have : u = c - (j:Int) := by omega
+      rw [if_pos hc, if_pos this]; ring
+    · have : ¬ (u = c - (j:Int)) := by omega
+      rw [if_neg hc, if_neg this]; simp
+  rw [Finset.sum_congr rfl h2, Finset.sum_comm]
+  apply Finset.sum_congr rfl; intro j hj
+  have hj' : j < h.length := by simpa using hj
+  rw [Finset.sum_ite_eq' W (c - (j:Int)) (fun u => getN h j * e u)]
+  simp [hW j hj']
+
+/-- the kernel identity with an arbitrary integer source index `u` (for an output index `t` inside the signal) -/
+theorem kernel_reindex_int (h g : List R) (N K : Nat) (u : Int) (t : Nat) (ht : t < N) (hK : K = (N + h.length - 1) / 2)
+    (hL : 2 ≤ h.length) (hg : g.length = h.length) :
+    ∑ k ∈ range K, getZ h (2*(k:Int) + 1 - u) * getZ g ((t:Int) + h.length - 2 - 2*(k:Int))
+      = ∑ a ∈ range h.length, if (a:Int) % 2 = (u + 1) % 2 then getN h a * getZ g (((t:Int) - u) + h.length - 1 - a) else 0 := by
+  have h1 : ∀ k ∈ range K, getZ h (2*(k:Int) + 1 - u) * getZ g ((t:Int) + h.length - 2 - 2*(k:Int))
+      = ∑ a ∈ range h.length, if (a:Int) = 2*(k:Int) + 1 - u then getN h a * getZ g (((t:Int) - u) + h.length - 1 - a) else 0 := by
+    intro k _
+    rw [getZ_eq_sum, Finset.sum_mul]
+    apply Finset.sum_congr rfl; intro a _
+    by_cases hc : (a:Int) = 2*(k:Int) + 1 - u
+    · rw [if_pos hc, if_pos hc]
+      congr 2; omega
+    · rw [if_neg hc, if_neg hc]; simp
+  rw [Finset.sum_congr rfl h1, Finset.sum_comm]
+  apply Finset.sum_congr rfl; intro a ha
+  have ha' : a < h.length := by simpa using ha
+  by_cases hpar : (a:Int) % 2 = (u + 1) % 2
+  · rw [if_pos hpar]
+    -- the unique k with a = 2k+1-u, if it lies in range K; otherwise the g factor vanishes
+    by_cases hk : 0 ≤ (a:Int) + u - 1 ∧ ((a:Int) + u - 1) / 2 < K
+    · have hk0 : (((a:Int) + u - 1) / 2).toNat ∈ range K := by simp; omega
+      rw [Finset.sum_eq_single_of_mem _ hk0]
+      · have : (a:Int) = 2*((((a:Int) + u - 1) / 2).toNat : Int) + 1 - u := by omega
+        rw [if_pos this]
+      · intro k _ hne
+        have : ¬ ((a:Int) = 2*(k:Int) + 1 - u) := by
+          intro hc; apply hne; omega
+        rw [if_neg this]
+    · have hz : getZ g (((t:Int) - u) + h.length - 1 - a) = 0 := by
+        by_cases hneg : ((t:Int) - u) + h.length - 1 - a < 0
+        · exact getZ_neg _ _ hneg
+        · exact getZ_of_ge _ _ (by rw [hg]; omega)
+      rw [hz, mul_zero]
+      apply Finset.sum_eq_zero
+      intro k hk'
+      have hk'' : k < K := by simpa using hk'
+      have : ¬ ((a:Int) = 2*(k:Int) + 1 - u) := by omega
+      rw [if_neg this]
+  · rw [if_neg hpar]
+    apply Finset.sum_eq_zero
+    intro k _
+    have : ¬ ((a:Int) = 2*(k:Int) + 1 - u) := by omega
     rw [if_neg this]
 
 end WV
